@@ -298,6 +298,11 @@ static void ProcessFile(char const* FileName, LongWord Offset) {
                 if ((ErgLen % LineLen) != 0) {
                     RecCnt++;
                 }
+                if ((ActFormat == eHexFormatMotoS) && (LineLen > 250)) {
+                    /* S-record count byte: address, data and checksum must fit into 255 */
+
+                    RecCnt = (ErgLen + 249) / 250;
+                }
 
                 /* relative Angaben ? */
 
@@ -441,6 +446,9 @@ static void ProcessFile(char const* FileName, LongWord Offset) {
                        Bei Mico8 nur 4 Byte (davon ein Wort=18 Bit) pro Zeile! */
 
                     TransLen = min(LineLen, ErgLen);
+                    if ((ActFormat == eHexFormatMotoS) && (TransLen > 250)) {
+                        TransLen = 250;
+                    }
                     if ((ActFormat == eHexFormatIntel32)
                         && ((ErgStart & 0xffff) + (TransLen / Gran) >= 0x10000)) {
                         TransLen  = Gran * (0x10000 - (ErgStart & 0xffff));
